@@ -108,7 +108,7 @@ Lemma jhas_lookup k kv : jhas k kv = true -> exists v, jlookup k kv = Some v.
 Proof. unfold jhas. destruct (jlookup k kv); [eauto | discriminate]. Qed.
 
 Ltac unfold_chain :=
-  unfold schema_from_url, any_failure, g_c19_errors, earlier_failure, data_malformed, data_not_object, has_errors, bad_format,
+  unfold schema_from_url, any_failure, data_malformed, data_not_object, has_errors, bad_format,
     non_json, non_2xx, data_of, top_of, bad_url, introspect_remote_schema, client_schema_gate, jhas in *;
   simpl in *.
 
@@ -127,61 +127,40 @@ Ltac cases st body deep :=
 Ltac finish := intros; try discriminate; try congruence; eauto.
 
 (* priority table: the first failing check decides, and decides the documented class *)
-Theorem outcome_table fx r deep :
-  (non_2xx r = true -> schema_from_url fx UOk r deep = SError (EStatus (r_status r))) /\
-  (non_2xx r = false -> non_json r = true -> schema_from_url fx UOk r deep = SError ENotJson) /\
+Theorem outcome_table r deep :
+  (non_2xx r = true -> schema_from_url UOk r deep = SError (EStatus (r_status r))) /\
+  (non_2xx r = false -> non_json r = true -> schema_from_url UOk r deep = SError ENotJson) /\
   (non_2xx r = false -> non_json r = false -> bad_format r = true ->
-     schema_from_url fx UOk r deep = SError EFormat) /\
+     schema_from_url UOk r deep = SError EFormat) /\
   (non_2xx r = false -> non_json r = false -> bad_format r = false -> has_errors r = true ->
-     exists e, schema_from_url fx UOk r deep = SError (EErrors e) /\ truthy e = true) /\
+     exists e, schema_from_url UOk r deep = SError (EErrors e) /\ truthy e = true) /\
   (non_2xx r = false -> non_json r = false -> bad_format r = false -> has_errors r = false ->
-     data_not_object r = true -> schema_from_url fx UOk r deep = SError EDataKey) /\
+     data_not_object r = true -> schema_from_url UOk r deep = SError EDataKey) /\
   (non_2xx r = false -> non_json r = false -> bad_format r = false -> has_errors r = false ->
      data_not_object r = false -> data_malformed r deep = true ->
-     if fx then schema_from_url fx UOk r deep = SError EBuild
-     else exists x, schema_from_url fx UOk r deep = SCrash x) /\
+     schema_from_url UOk r deep = SError EBuild) /\
   (any_failure UOk r deep = false ->
-     exists d, data_of r = Some (JObj d) /\ schema_from_url fx UOk r deep = SBuilt d).
+     exists d, data_of r = Some (JObj d) /\ schema_from_url UOk r deep = SBuilt d).
 Proof.
-  destruct r as [st body]. unfold_chain. cases st body deep; destruct fx; simpl; repeat split; finish.
+  destruct r as [st body]. unfold_chain. cases st body deep; repeat split; finish.
 Qed.
 
-Theorem outcome_bad_url fx r deep :
-  schema_from_url fx UInvalid r deep = SError EInvalidUrl /\
-  schema_from_url true UNoScheme r deep = SError EInvalidUrl /\
-  schema_from_url false UNoScheme r deep = SCrash "UnsupportedProtocol".
-Proof. repeat split. Qed.
+Theorem outcome_bad_url u r deep :
+  bad_url u = true -> schema_from_url u r deep = SError EInvalidUrl.
+Proof. destruct u; [discriminate | reflexivity | reflexivity]. Qed.
 
 (* a schema is built exactly for the inputs outside every failure class *)
-Theorem built_iff_no_failure fx u r deep :
-  (exists d, schema_from_url fx u r deep = SBuilt d) <-> any_failure u r deep = false.
+Theorem built_iff_no_failure u r deep :
+  (exists d, schema_from_url u r deep = SBuilt d) <-> any_failure u r deep = false.
 Proof.
-  destruct r as [st body], u, fx; unfold_chain;
+  destruct r as [st body], u; unfold_chain;
     try (split; [intros [d H]; discriminate | discriminate]);
   cases st body deep; (split; [intros [d0 H] | intro H]); finish.
 Qed.
 
-(* failure => IntrospectionError: outside the two classes where a foreign exception escapes *)
-Theorem failure_is_introspection_error_partial u r deep :
-  any_failure u r deep = true -> g_c19_errors u r deep = true ->
-  exists e, schema_from_url false u r deep = SError e.
-Proof.
-  destruct r as [st body], u; unfold_chain; try (finish; fail).
-  cases st body deep; finish.
-Qed.
-
-(* ... and with the patch, always *)
-Theorem failure_is_introspection_error_fixed u r deep :
-  any_failure u r deep = true -> exists e, schema_from_url true u r deep = SError e.
-Proof.
-  destruct r as [st body], u; unfold_chain; try (finish; fail).
-  cases st body deep; finish.
-Qed.
-
-(* the guard is exactly the defect class: inside it the unpatched code lets a foreign exception escape *)
-Theorem outside_guard_crashes u r deep :
-  any_failure u r deep = true -> g_c19_errors u r deep = false ->
-  exists x, schema_from_url false u r deep = SCrash x.
+(* every failure class surfaces as IntrospectionError *)
+Theorem failure_is_introspection_error u r deep :
+  any_failure u r deep = true -> exists e, schema_from_url u r deep = SError e.
 Proof.
   destruct r as [st body], u; unfold_chain; try (finish; fail).
   cases st body deep; finish.
@@ -193,38 +172,15 @@ Proof. reflexivity. Qed.
 Lemma via_field_name f : if_name (via_field f) = if_name f.
 Proof. reflexivity. Qed.
 
-Lemma field_default_via_unfixed f :
-  field_default false (via_field f) = if nullable (if_type f) then PNone else PRequired.
-Proof. reflexivity. Qed.
-
-Lemma required_via f : pf_required (gen_field false (via_field f)) = negb (nullable (if_type f)).
-Proof. unfold gen_field. rewrite field_default_via_unfixed. destruct (nullable (if_type f)); reflexivity. Qed.
-
 Lemma required_sdl f : wf_field f = true ->
-  pf_required (gen_field false f) = negb (nullable (if_type f)) && negb (has_default f).
+  pf_required (gen_field f) = negb (nullable (if_type f)) && negb (has_default f).
 Proof.
   unfold wf_field, gen_field, field_default, has_default. intro H. apply andb_true_iff in H as [Hn H]. rewrite Hn.
-  destruct (if_ast_default f), (nullable (if_type f)); reflexivity.
+  destruct (if_ast_default f), (if_value_default f), (nullable (if_type f)); simpl in *; try discriminate; reflexivity.
 Qed.
 
-(* per field: the generated field is the same on both routes exactly when there is no default,
-   or the default is null on a nullable field *)
-Definition harmless_default (f : ifield) : bool :=
-  negb (has_default f) ||
-  (nullable (if_type f) && match if_value_default f with Some CNull => true | _ => false end).
-
-Lemma gen_field_via_iff f : wf_field f = true ->
-  (gen_field false (via_field f) = gen_field false f <-> harmless_default f = true).
-Proof.
-  unfold wf_field, gen_field, semantic_default, field_default, harmless_default, has_default, via_field; simpl.
-  intro H. apply andb_true_iff in H as [Hn H]. rewrite Hn.
-  destruct (if_ast_default f) as [a|], (if_value_default f) as [v|], (nullable (if_type f)); simpl in *;
-    try discriminate; split; intro E; try reflexivity; try discriminate; try (inversion E; fail).
-  - inversion E; subst. reflexivity.
-  - destruct v; try discriminate. reflexivity.
-Qed.
-
-Lemma gen_field_via_fixed f : wf_field f = true -> gen_field true (via_field f) = gen_field false f.
+(* per field: what the generated class says is the same on both routes *)
+Lemma gen_field_via f : wf_field f = true -> gen_field (via_field f) = gen_field f.
 Proof.
   unfold wf_field, gen_field, semantic_default, field_default, via_field; simpl.
   intro H. apply andb_true_iff in H as [Hn H]. rewrite Hn.
@@ -255,11 +211,11 @@ Qed.
 
 Definition all_fields (p : ifield -> bool) (s : inputs) : bool := forallb (fun c => forallb p (snd c)) s.
 
-Lemma gen_inputs_via_gen fx (ok : ifield -> bool) s :
+Lemma gen_inputs_via_gen (ok : ifield -> bool) s :
   all_fields (fun f => negb (if_deprecated f)) s = true ->
   all_fields ok s = true ->
-  (forall f, ok f = true -> gen_field fx (via_field f) = gen_field false f) ->
-  gen_inputs fx (via_introspection s) = gen_inputs false s.
+  (forall f, ok f = true -> gen_field (via_field f) = gen_field f) ->
+  gen_inputs (via_introspection s) = gen_inputs s.
 Proof.
   intros Hd Hok E. unfold gen_inputs, via_introspection. rewrite map_map.
   unfold all_fields in *. induction s as [|[n fs] s IH]; simpl in *; [reflexivity|].
@@ -268,84 +224,59 @@ Proof.
   rewrite (filter_all _ _ Hd1), map_map. apply (map_ext_forallb _ _ ok); assumption.
 Qed.
 
-(* what IS preserved: without harmful defaults and deprecated fields the input models coincide *)
-Theorem introspection_inputs_partial s :
-  wf_sdl s = true -> no_deprecated s = true -> all_fields harmless_default s = true ->
-  gen_inputs false (via_introspection s) = gen_inputs false s.
-Proof.
-  intros Hw Hd Hh.
-  apply (gen_inputs_via_gen false (fun f => wf_field f && harmless_default f)); [exact Hd | |].
-  - unfold all_fields, wf_sdl in *. clear Hd. induction s as [|[n fs] s IH]; simpl in *; [reflexivity|].
-    apply andb_true_iff in Hw as [W1 W2]. apply andb_true_iff in Hh as [H1 H2].
-    rewrite (forallb_and _ _ _ W1 H1). simpl. apply IH; assumption.
-  - intros f H. apply andb_true_iff in H as [H1 H2]. apply gen_field_via_iff; assumption.
-Qed.
-
-Lemma no_defaults_harmless s : no_defaults s = true -> all_fields harmless_default s = true.
-Proof.
-  unfold no_defaults, all_fields. induction s as [|[n fs] s IH]; simpl; [reflexivity|].
-  intro H. apply andb_true_iff in H as [H1 H2]. rewrite (IH H2), andb_true_r.
-  clear -H1. induction fs as [|f fs IH]; simpl in *; [reflexivity|].
-  apply andb_true_iff in H1 as [A B]. unfold harmless_default. rewrite A. simpl. apply IH. exact B.
-Qed.
-
-(* with the patch (defaults read from field.default_value when there is no node) only the
-   deprecated fields still differ *)
-Theorem introspection_inputs_fixed s :
+(* the input models coincide: same classes, fields, required flags and defaults - for every schema
+   without deprecated input fields (the one class that remains, F19-deprecated-input-fields) *)
+Theorem introspection_inputs s :
   wf_sdl s = true -> no_deprecated s = true ->
-  gen_inputs true (via_introspection s) = gen_inputs false s.
+  gen_inputs (via_introspection s) = gen_inputs s.
 Proof.
-  intros Hw Hd. apply (gen_inputs_via_gen true wf_field); [exact Hd | exact Hw |].
-  intros f H. apply gen_field_via_fixed. exact H.
+  intros Hw Hd. apply (gen_inputs_via_gen wf_field); [exact Hd | exact Hw |].
+  intros f H. apply gen_field_via. exact H.
 Qed.
+
+Theorem required_set s :
+  wf_sdl s = true -> no_deprecated s = true ->
+  map (fun c => (fst c, required_names (snd c))) (gen_inputs (via_introspection s)) =
+  map (fun c => (fst c, required_names (snd c))) (gen_inputs s).
+Proof. intros Hw Hd. rewrite (introspection_inputs s Hw Hd). reflexivity. Qed.
 
 (* names and types of the surviving fields are always preserved *)
-Theorem introspection_keeps_names_types fx s :
-  map (fun c => (fst c, map (fun p => (pf_name p, pf_type p)) (snd c))) (gen_inputs fx (via_introspection s)) =
+Theorem introspection_keeps_names_types s :
+  map (fun c => (fst c, map (fun p => (pf_name p, pf_type p)) (snd c))) (gen_inputs (via_introspection s)) =
   map (fun c => (fst c, map (fun f => (if_name f, if_type f)) (filter (fun f => negb (if_deprecated f)) (snd c)))) s.
 Proof.
   unfold gen_inputs, via_introspection, via_fields. rewrite !map_map. apply map_ext. intros [n fs]. simpl.
   f_equal. rewrite !map_map. reflexivity.
 Qed.
 
-(* the required set: preserved exactly when no non-null field carries a default *)
-Theorem required_set_partial s :
-  wf_sdl s = true -> no_deprecated s = true -> no_nonnull_default s = true ->
-  map (fun c => (fst c, required_names (snd c))) (gen_inputs false (via_introspection s)) =
-  map (fun c => (fst c, required_names (snd c))) (gen_inputs false s).
+(* and every surviving field is generated exactly as on the SDL route: the two packages differ by the
+   missing deprecated fields and nothing else *)
+Theorem introspection_surviving_fields s :
+  wf_sdl s = true ->
+  gen_inputs (via_introspection s) =
+  map (fun c => (fst c, map gen_field (filter (fun f => negb (if_deprecated f)) (snd c)))) s.
 Proof.
-  unfold wf_sdl, no_deprecated, no_nonnull_default, gen_inputs, via_introspection. rewrite !map_map.
-  induction s as [|[n fs] s IH]; [reflexivity|]. intros Hw Hd Hn.
-  cbn [forallb snd] in Hw, Hd, Hn.
-  apply andb_true_iff in Hw as [W1 W2]. apply andb_true_iff in Hd as [D1 D2]. apply andb_true_iff in Hn as [N1 N2].
-  rewrite !map_cons. f_equal; [| apply IH; assumption].
-  cbn [fst snd]. f_equal. unfold via_fields. rewrite (filter_all _ _ D1). clear -W1 N1.
-  unfold required_names. induction fs as [|f fs IH]; [reflexivity|].
-  cbn [forallb] in W1, N1. apply andb_true_iff in W1 as [A1 A2]. apply andb_true_iff in N1 as [B1 B2].
-  cbn [map filter]. rewrite required_via, (required_sdl f A1).
-  assert (E : negb (nullable (if_type f)) && negb (has_default f) = negb (nullable (if_type f))).
-  { destruct (nullable (if_type f)); simpl in *; [reflexivity|]. rewrite B1. reflexivity. }
-  rewrite E. destruct (negb (nullable (if_type f))); cbn [map]; rewrite (IH A2 B2); reflexivity.
+  unfold wf_sdl, gen_inputs, via_introspection. rewrite map_map.
+  induction s as [|[n fs] s IH]; [reflexivity|]. intro Hw. cbn [forallb snd] in Hw.
+  apply andb_true_iff in Hw as [W1 W2]. rewrite !map_cons, (IH W2). f_equal. cbn [fst snd]. f_equal.
+  unfold via_fields. rewrite map_map. clear -W1.
+  induction fs as [|f fs IH]; [reflexivity|]. cbn [forallb] in W1. apply andb_true_iff in W1 as [A1 A2].
+  cbn [filter]. destruct (negb (if_deprecated f)); cbn [map]; rewrite ?(gen_field_via f A1), (IH A2); reflexivity.
 Qed.
 
 (* ------------------------------------------------------------------ loader + generator *)
 Lemma inputs_of_perm tm tm' : Permutation tm' tm -> Permutation (inputs_of tm') (inputs_of tm).
 Proof. intro H. unfold inputs_of. apply Permutation_flat_map. exact H. Qed.
 
-Lemma gen_inputs_perm fx s s' : Permutation s' s -> Permutation (gen_inputs fx s') (gen_inputs fx s).
+Lemma gen_inputs_perm s s' : Permutation s' s -> Permutation (gen_inputs s') (gen_inputs s).
 Proof. intro H. unfold gen_inputs. apply Permutation_map. exact H. Qed.
 
-Theorem split_same_input_classes fx gx tree ds :
+Theorem split_same_input_classes tree ds :
   NoDup (type_names ds) -> has_ext ds = false ->
-  Permutation (flat_map defs_of (filter (selected fx) tree)) ds ->
-  Permutation (gen_inputs gx (inputs_of (type_map (loaded_defs fx tree))))
-              (gen_inputs gx (inputs_of (type_map ds))).
+  Permutation (flat_map defs_of (filter selected tree)) ds ->
+  Permutation (gen_inputs (inputs_of (type_map (loaded_defs tree))))
+              (gen_inputs (inputs_of (type_map ds))).
 Proof.
   intros Hn He Hp. apply gen_inputs_perm, inputs_of_perm, type_map_perm_noext; try assumption.
   apply split_permutation. exact Hp.
 Qed.
-
-Theorem introspection_inputs_partial_nodefaults s :
-  wf_sdl s = true -> no_deprecated s = true -> no_defaults s = true ->
-  gen_inputs false (via_introspection s) = gen_inputs false s.
-Proof. intros W D N. apply introspection_inputs_partial; auto. apply no_defaults_harmless. exact N. Qed.
